@@ -246,7 +246,8 @@ def run(ctx):
     for vi, t in enumerate(var_texts):
         esm = (0, 0x40, 0x43, 0)[vi % 4]
         ref = rng.choice([0, 9, 255])
-        params = [(), ((st.USER_MESSAGE_REFERENCE, 513),), ((st.USER_MESSAGE_REFERENCE, 7), (st.SOURCE_PORT, 65000))][vi % 3]
+        params = [(), ((st.USER_MESSAGE_REFERENCE, 513),), ((st.USER_MESSAGE_REFERENCE, 7), (st.SOURCE_PORT, 65000)),
+                  ((st.LANGUAGE_INDICATOR, 3), (st.DESTINATION_PORT, 8080)), ((st.LANGUAGE_INDICATOR, 1),)][vi % 5]
         encoding = [None, 'ucs2', 'gsm0338', None][(vi // 2) % 4]
         kind, val, hook = asyncio.run(wire_segments(t, esm, ref, encoding, params))
         ctx.traces += 1
